@@ -189,38 +189,35 @@ Proof.
   intros vs Hvs. apply Forall_map. eapply Forall_impl; [|exact Hvs]. intros t. apply resolve_value_token_ok, Hs.
 Qed.
 
-(* wrap_with_field writes tokens only *)
-Definition wv_ok (cfg : sconfig) (v : cval) : Prop := forall idx, Gv (fst (wrap_val cfg v idx)).
-Lemma wloc_arg_G cfg vs : Forall (wv_ok cfg) vs -> forall idx, Gv (fst (wloc_arg cfg vs idx)).
+(* wrap_with_field keeps the function names of the value it wraps (a FunctionCall stays a FunctionCall with the
+   same name; every other token becomes a Field or is kept) *)
+Definition wv_ok (cfg : sconfig) (v : cval) : Prop := G v -> forall idx, G (fst (wrap_val cfg v idx)).
+Lemma wrap_list_G_gen cfg vs : Forall (wv_ok cfg) vs -> Gv vs -> forall idx, Gv (fst (wrap_list cfg vs idx)).
 Proof.
-  induction 1 as [|x xs Hx _ IH]; intros idx; cbn [wloc_arg]; [constructor|].
-  specialize (Hx idx). destruct (wrap_val cfg x idx) as [o1 i1]. fold (wloc_arg cfg).
-  specialize (IH i1). destruct (wloc_arg cfg xs i1) as [o2 i2]. cbn [fst] in *. apply Forall_app. split; assumption.
+  induction 1 as [|x xs Hx _ IH]; intros Hg idx; cbn [wrap_list]; [constructor|].
+  inversion Hg as [|? ? G1 G2]; subst.
+  specialize (Hx G1 idx). destruct (wrap_val cfg x idx) as [o1 i1].
+  specialize (IH G2 i1). destruct (wrap_list cfg xs i1) as [o2 i2]. cbn [fst] in *. constructor; assumption.
 Qed.
-Lemma wloc_args_G cfg m args : Forall (Forall (wv_ok cfg)) args -> forall i idx, Gv (fst (wloc_args cfg m args i idx)).
+Lemma wrap_args_G_gen cfg args : Forall (Forall (wv_ok cfg)) args -> Gvs args -> forall idx, Gvs (fst (wrap_args cfg args idx)).
 Proof.
-  induction 1 as [|a r Ha _ IH]; intros i idx; cbn [wloc_args]; [constructor|].
-  pose proof (wloc_arg_G cfg a Ha idx) as H1. destruct (wloc_arg cfg a idx) as [o1 i1]. fold (wloc_args cfg m).
-  specialize (IH (S i) i1). destruct (wloc_args cfg m r (S i) i1) as [o2 i2]. cbn [fst] in *.
-  apply Forall_app. split; [exact H1|]. apply Forall_app. split; [|exact IH].
-  destruct (Nat.eqb i m); [constructor|constructor; [reflexivity|constructor]].
+  induction 1 as [|a r Ha _ IH]; intros Hg idx; cbn [wrap_args]; [constructor|].
+  inversion Hg as [|? ? G1 G2]; subst.
+  pose proof (wrap_list_G_gen cfg a Ha G1 idx) as H1. destruct (wrap_list cfg a idx) as [o1 i1].
+  specialize (IH G2 i1). destruct (wrap_args cfg r i1) as [o2 i2]. cbn [fst] in *. constructor; assumption.
 Qed.
 Lemma wrap_val_G cfg v : wv_ok cfg v.
 Proof.
-  induction v as [k st en|name args IH] using cval_ind2; unfold wv_ok; intros idx.
-  - destruct k; cbn [wrap_val fst]; repeat constructor.
-  - rewrite wrap_val_func. pose proof (wloc_args_G cfg (length args - 1) args IH O (idx + 1)%N) as H.
-    destruct (wloc_args cfg (length args - 1) args O (idx + 1)%N) as [body idx']. cbn [fst] in *.
-    apply Forall_app. split; [repeat constructor|]. apply Forall_app. split; [exact H|repeat constructor].
+  induction v as [k st en|name args IH] using cval_ind2; unfold wv_ok; intros Hg idx.
+  - destruct k; cbn [wrap_val fst]; apply G_tok.
+  - rewrite wrap_val_func. apply G_func in Hg. destruct Hg as [Hn Ha].
+    pose proof (wrap_args_G_gen cfg args IH Ha idx) as H.
+    destruct (wrap_args cfg args idx) as [args' idx']. cbn [fst] in *. apply G_func. split; assumption.
 Qed.
-Lemma wrap_list_G cfg vs : forall idx, Gv (fst (wrap_list cfg vs idx)).
-Proof.
-  induction vs as [|x xs IH]; intros idx; cbn [wrap_list]; [constructor|].
-  pose proof (wrap_val_G cfg x idx) as H1. destruct (wrap_val cfg x idx) as [o1 i1].
-  specialize (IH i1). destruct (wrap_list cfg xs i1) as [o2 i2]. cbn [fst] in *. apply Forall_app. split; assumption.
-Qed.
-Lemma wrap_with_field_G cfg node : Gv (wrap_with_field cfg node).
-Proof. apply wrap_list_G. Qed.
+Lemma wrap_list_G cfg vs : Gv vs -> forall idx, Gv (fst (wrap_list cfg vs idx)).
+Proof. apply wrap_list_G_gen, Forall_all. intros v. apply wrap_val_G. Qed.
+Lemma wrap_with_field_G cfg node : Gv node -> Gv (wrap_with_field cfg node).
+Proof. intros H. apply wrap_list_G, H. Qed.
 
 Lemma fill_fields_ok segs : forall input, Gv input -> Gv (fill_fields segs input).
 Proof.
@@ -258,7 +255,7 @@ Proof.
   { intros v Hgv. destruct v as [|v0 vr].
     - destruct value as [|dv others]; [constructor|]. inversion Hv; subst.
       destruct others; [assumption|]. destruct (existsb has_field dv); [assumption|].
-      unfold Gp. cbn [pvalue]. apply Forall_map. apply Forall_all. intros a. apply wrap_with_field_G.
+      unfold Gp. cbn [pvalue]. apply Forall_map. eapply Forall_impl; [|eassumption]. intros a. apply wrap_with_field_G.
     - unfold Gp. cbn [pvalue]. apply resolve_value_keywords_ok; assumption. }
   cbv zeta. destruct (get_unmatched_part abbr key 0) as [|c0 iv].
   - exact (Hfin (pvalue node) Hn).
